@@ -478,6 +478,7 @@ def keyring_KeyRing_VerifyJSONs : List String := [
   "return nil, err",
   "}",
   "keysFetched := map[PublicKeyLookupRequest]PublicKeyLookupResult{}",
+  "keysToStore := map[PublicKeyLookupRequest]PublicKeyLookupResult{}",
   "now := spec.AsTimestamp(time.Now())",
   "for req, res := range keysFromDatabase {",
   "if res.ExpiredTS != PublicKeyNotExpired {",
@@ -524,6 +525,7 @@ def keyring_KeyRing_VerifyJSONs : List String := [
   "}",
   "}",
   "keysFetched[req] = res",
+  "keysToStore[req] = res",
   "delete(keyRequests, req)",
   "}",
   "}",
@@ -535,7 +537,7 @@ def keyring_KeyRing_VerifyJSONs : List String := [
   "logger.WithFields(logrus.Fields{\"servers\": requestedServers, \"fetchers\": len(k.KeyFetchers)}).Warn(\"failed to fetch keys for some servers\")",
   "}",
   "k.checkUsingKeys(requests, results, keyIDs, keysFetched)",
-  "if err := k.KeyDatabase.StoreKeys(ctx, keysFetched); err != nil {",
+  "if err := k.KeyDatabase.StoreKeys(ctx, keysToStore); err != nil {",
   "return nil, err",
   "}",
   "return results, nil"
